@@ -312,3 +312,55 @@ Definition region_ok (decls : list ent) : bool :=
 Definition no_equal_profiles (pkgs : N -> list ent) (ch : list (list item)) (d : des) : bool :=
   let vis := use_visible pkgs ch d in
   negb (forallb overloadable vis) || distinct_profiles vis.
+
+(* membership of a whole program in the family, decided along the same scan as `spec_items`:
+   every region is free of duplicate declarations at every moment, and no use site sees two
+   potentially visible subprograms with equal profiles *)
+Definition top_ok (ch : list (list item)) : bool :=
+  match ch with
+  | [] => false
+  | pre :: _ => region_ok (decls_of pre)
+  end.
+Fixpoint family_items (t : utable) (ch : list (list item)) (its : list item) : bool :=
+  match its with
+  | [] => true
+  | it :: r =>
+      let ch1 := fst (spec_item t ch it) in
+      let here :=
+        match it with
+        | IDecl _ => top_ok ch1
+        | IOpenFun _ _ => top_ok ch1 && match ch1 with _ :: up => top_ok up | [] => false end
+        | ISite s => no_equal_profiles (tab_pkgs t) ch (sdes s)
+        | _ => true
+        end in
+      here && family_items t ch1 r
+  end.
+Fixpoint family_units (t : utable) (us : list unit) : bool :=
+  match us with
+  | [] => true
+  | u :: r =>
+      family_items t (unit_chain t u) (ubody u) && family_units (fst (spec_unit t u)) r
+  end.
+Definition family_program (p : program) : bool := family_units std_table p.
+
+(* statistics for the non-triviality rule: number of directly visible and of potentially
+   visible declarations of the site's designator *)
+Definition site_stats (pkgs : N -> list ent) (ch : list (list item)) (d : des) : nat * nat :=
+  (match direct ch d [] with inl _ => 1%nat | inr acc => length acc end,
+   length (use_visible pkgs ch d)).
+Fixpoint stats_items (t : utable) (ch : list (list item)) (its : list item) : list (N * (nat * nat)) :=
+  match its with
+  | [] => []
+  | it :: r =>
+      let rest := stats_items t (fst (spec_item t ch it)) r in
+      match it with
+      | ISite s => (sid s, site_stats (tab_pkgs t) ch (sdes s)) :: rest
+      | _ => rest
+      end
+  end.
+Fixpoint stats_units (t : utable) (us : list unit) : list (N * (nat * nat)) :=
+  match us with
+  | [] => []
+  | u :: r => stats_items t (unit_chain t u) (ubody u) ++ stats_units (fst (spec_unit t u)) r
+  end.
+Definition stats_program (p : program) : list (N * (nat * nat)) := stats_units std_table p.
